@@ -18,10 +18,10 @@ from concurrent.futures import ThreadPoolExecutor
 
 from .. import common, tlc
 
-INV = ["TypeOK", "DirExact", "DiskIsWant", "LoadReturnsLast", "MergeSeesPrevious", "DeleteWorks", "MemIsDisk"]
+INV = ["TypeOK", "DirExact", "DiskIsWant", "LoadReturnsLast", "LoadNewReturnsLast", "MergeSeesPrevious", "DeleteWorks", "MemIsDisk"]
 RTINV = ["RtIdentity", "RtLazyIsEager", "RtDir", "RtNoDeadlock"]
-ALLOPS = ["Save", "Load", "SaveMerge", "HarvSame", "HarvFresh", "Delete"]
-SITES = ["save", "load", "mergeTest", "mergeLoad", "harvTest", "harvLoad", "harvRemove", "delete"]
+ALLOPS = ["Save", "Load", "LoadNew", "SaveMerge", "HarvSame", "HarvFresh", "Delete"]
+SITES = ["save", "load", "loadNewTest", "mergeTest", "mergeLoad", "harvTest", "harvLoad", "harvRemove", "delete"]
 EXTS = ["", ".h5", ".dmp"]
 ENGINES = ["h5netcdf", "joblib"]
 POL = {"none": None, "true": True, "false": False}
@@ -127,6 +127,15 @@ def check_hist(c):
                     xyz.save_ds(piece_ds(st["p"]), name, engine=eng)
                 elif op == "Load":
                     got_val = pieces_of(xyz.load_ds(name, engine=eng))
+                elif op == "LoadNew":
+                    lds = xyz.load_ds(name, engine=eng, create_new=True, chunks=(1 if st["ch"] == "int" else None))
+                    try:
+                        blank = len(lds.data_vars) == 0 and len(lds.coords) == 0 and len(lds.sizes) == 0
+                        got_val = pieces_of(lds)
+                    finally:
+                        lds.close()
+                    if blank:
+                        got_st = "blank"
                 elif op == "SaveMerge":
                     xyz.save_merge_ds(piece_ds(st["p"]), name, overwrite=POL[st["pol"]], engine=eng)
                 elif op in ("HarvFresh", "HarvSame"):
@@ -142,8 +151,14 @@ def check_hist(c):
                 n + 1, op, "" if st["pol"] == "none" else ", overwrite=%s" % POL[st["pol"]],
                 [s["op"] for s in c["hist"]], name, eng)
             key = dict(part="naming", op=op, hasext=bool(ext), engine=eng)
-            want_st = "ok" if st["st"] == "ok" else "raises"
+            want_st = st["st"] if st["st"] in ("ok", "blank") else "raises"
             if got_st != want_st:
+                if got_st == "blank":
+                    return [(dict(key, what="blank"), "%s: load_ds(create_new=True) returned a blank dataset although %r holds the "
+                             "saved content %r" % (where, sorted(os.listdir(td)), sorted(st.get("val", []))))]
+                if want_st == "blank":
+                    return [(dict(key, what="not-blank"), "%s: load_ds(create_new=True) did not return a blank dataset (%s) although "
+                             "nothing was saved" % (where, exc or got_val))]
                 if got_st == "raises":
                     return [(dict(key, what="raises"), "%s: raised %s where the operation must succeed" % (where, exc))]
                 return [(dict(key, what="no-error"), "%s: succeeded although no file of that name exists" % where)]
@@ -158,7 +173,7 @@ def check_hist(c):
                              % (where, f, sorted(pcs), want_disk.get(f, [])))]
                 if any(abs(v - (10.0 * p + 1.0)) > 0 for p, v in pcs.items()):
                     return [(dict(key, what="values"), "%s: %s holds changed values %r" % (where, f, pcs))]
-            if op == "Load" and want_st == "ok":
+            if op in ("Load", "LoadNew") and want_st == "ok":
                 if sorted(got_val) != sorted(st["val"]):
                     return [(dict(key, what="loaded"), "%s: load_ds returned the pieces %r, last saved/merged content is %r"
                              % (where, sorted(got_val), sorted(st["val"])))]
@@ -219,6 +234,9 @@ def attr_value(tok):
         return {"None": None, "True": True, "False": False}[val]
     if kind == "int":
         return int(val)
+    if kind == "npint":
+        import numpy as np
+        return np.int64(val)
     if kind == "float":
         return float(val)
     if kind == "str":
@@ -240,7 +258,7 @@ def attr_matches(tok, val):
         return isinstance(val, str) and val == w
     if isinstance(val, (str, bytes)) or val is None:
         return False
-    if kind in ("int", "float"):
+    if kind in ("int", "float", "npint"):
         return np.ndim(val) == 0 and not isinstance(val, (bool, np.bool_)) and float(val) == float(w)
     if kind == "seq":
         return np.asarray(val).ravel().tolist() == [int(x) for x in w.split(",")]
@@ -407,7 +425,8 @@ def run(rep):
                                                       deff=["mergeLoad"], tag="pinned", workers=1)
         for site in SITES:
             jobs[("site", site)] = ex.submit(run_naming, "", "joblib", 3, raw=[site], tag="raw_" + site, workers=1)
-        for rule, eng in (("rewriteAlways", "joblib"), ("rewriteNever", "h5netcdf"), ("lazyStale", "h5netcdf")):
+        for rule, eng in (("rewriteAlways", "joblib"), ("rewriteNever", "h5netcdf"), ("rewriteByEquality", "h5netcdf"),
+                          ("lazyStale", "h5netcdf")):
             jobs[("rtrule", rule)] = ex.submit(run_rt, "", eng, rule=rule, workers=1)
         results = {k: f.result() for k, f in jobs.items()}
     for k, r in results.items():
@@ -425,7 +444,7 @@ def run(rep):
         rep.add_tlc("DsStore %s name=data%s engine=%s" % ({"A": "naming", "B": "naming+policies", "rt": "round-trip"}[kind], ext, eng), r)
         if r.violated:
             raise tlc.TLCError("DsStore.tla: invariant %s violated (%s, data%s, %s)" % (r.violated, kind, ext, eng))
-        need = ["RtSave", "RtLoadEager", "RtLoadLazy"] if kind == "rt" else ["Save", "Load", "SaveMerge", "HarvSync", "Delete"]
+        need = ["RtSave", "RtLoadEager", "RtLoadLazy"] if kind == "rt" else ["Save", "Load", "LoadNew", "SaveMerge", "HarvSync", "Delete"]
         for act in need:
             if r.coverage.get(act, (0, 0))[1] == 0:
                 raise tlc.TLCError("vacuous: action %s never taken (%s, data%s, %s)" % (act, kind, ext, eng))
